@@ -44,6 +44,8 @@ Definition c_dump_node (h : heap) (D : nfilter) (Fs : list nfilter) (kcount : ni
        ++ frame 15 i (enc_res enc_ids (h_iterate_ancestors h D F n))
        ++ frame 17 i (enc_res enc_ids (h_iterate_following h D F n))
        ++ frame 18 i (enc_res enc_ids (h_iterate_preceding h D F n))
+       ++ frame 24 i (enc_res enc_opt (h_fetch_following h D F n))
+       ++ frame 25 i (enc_res enc_opt (h_fetch_preceding h D F n))
        ++ frame 20 i (enc_res enc_ids (h_traverse_bf h D F n))
        ++ frame 21 i (enc_res enc_ids (h_traverse_df_btt h D F n))
        ++ frame 22 i (enc_res enc_ids (h_traverse_df_ttb h D F n)))
@@ -93,6 +95,8 @@ Definition a_dump_node (t : itree) (D : nfilter) (Fs : list nfilter) (n : nid) :
        ++ frame 15 i (ok enc_ids (filter F (a_ancestors t n)))
        ++ frame 17 i (ok enc_ids (filter P (a_following t n)))
        ++ frame 18 i (ok enc_ids (filter F (a_preceding t n)))      (* the ambient filter does not apply *)
+       ++ frame 24 i (ok enc_opt (hd_error (filter P (a_following t n))))
+       ++ frame 25 i (ok enc_opt (hd_error (filter F (a_preceding t n))))
        (* traversers: the given root is always part of the enumeration; the rest is the documented order *)
        ++ frame 20 i (ok enc_ids (root_first (a_bf_ttb t n) P))
        ++ frame 21 i (ok enc_ids (filter (fun x => N.eqb x n || P x) (a_df_btt t n)))
